@@ -24,7 +24,7 @@ func MainC15(prop, tier string) int {
 		r.Floor("screens_compared", 1)
 		return r.Finish()
 	}
-	r.Fanout("c15", vk.NumWorkers(), 40*time.Minute)
+	r.Fanout("c15", vk.NumWorkers(), 90*time.Minute)
 	r.Floor("screens_compared", 100)
 	r.Floor("list_rows_compared", 500)
 	return r.Finish()
@@ -47,7 +47,7 @@ func workerC15(r *vk.Run, w, n int, args []string) {
 	rng := rand.New(rand.NewSource(r.Seed*65003 + int64(w)*163 + 1))
 	sessions := 400
 	if !r.Quick() {
-		sessions = 1000
+		sessions = 12000
 	}
 	per := sessions/n + 1
 	for i := 0; i < per; i++ {
